@@ -185,6 +185,178 @@ for _n in (1, 2, 3):
 
 
 # ----------------------------------------------------------------------------
+# the file level: one record per line, in order (write) and one record per non-comment line, in order (iterate)
+# ----------------------------------------------------------------------------
+class _GvfLine:
+    def __init__(self, owner, i):
+        self.owner, self.i = owner, i
+
+    def sym_method(self, I, name, a, k):
+        if name == 'startswith' and a and a[0] == '#':
+            return self.owner._cur.comment(self.i)
+        raise Unsupported(f'line.{name}')
+
+
+@register
+class IterateGvf(Contract):
+    """iterate(handle) yields line_to_variant_record(line) for exactly the lines that do not start with '#', each once, in file order"""
+    path, qualname, props = SIO, 'iterate', ('C13',)
+
+    def setup(self, I):
+        e = I.e
+        st = types.SimpleNamespace(yielded=[])
+        st.n = e.int('n_lines')
+        e.assume(st.n >= 0)
+        st.comment = z3.Function('line_is_a_comment', I_, B_)
+        zz = lambda i: i if is_z3(i) else z3.IntVal(i)
+        st.args = [FnView(st.n, lambda i: _GvfLine(self, zz(i)), tag='lines of the file')]
+        self._cur = st
+        return st
+
+    @property
+    def models(self):
+        c = self
+
+        def inst(reg):
+            reg.func_(SIO, 'line_to_variant_record', lambda I, a, k: SymObj('Parsed13', of=a[0].i) if isinstance(a[0], _GvfLine) else I.raise_('TypeError', 'not a line'))
+            reg.on_yield = lambda I, frame, v: c._cur.yielded.append(v)
+        return (inst,)
+
+    def head(self, I, env, k):
+        self._cur.mark = len(self._cur.yielded)
+
+    def step(self, I, env, k):
+        st = self._cur
+        new = st.yielded[st.mark:]
+        if not new:
+            return [('a-line-is-passed-over-only-as-a-comment', st.comment(k))]
+        ok = len(new) == 1 and isinstance(new[0], SymObj) and new[0].cls == 'Parsed13'
+        return [('one-record-per-record-line-parsed-from-that-line', z3.And(z3.Not(st.comment(k)), new[0].fields['of'] == k) if ok else False)]
+
+    @property
+    def loops(self):
+        return {0: LoopSpec(inv=lambda I, env, k: [], on_head=self.head, step=self.step, target_after='unknown',
+                            on_break=lambda I, env, k: [('every-line-is-visited', False)],
+                            on_exit=lambda I, env, n: [('all-lines-were-visited', n == self._cur.n)])}
+
+
+class _OutFile13:
+    def __init__(self, owner, name):
+        self.owner, self.name = owner, name
+
+    def sym_method(self, I, nm, a, k):
+        st = self.owner._cur
+        if nm == 'write':
+            st.log.append(('write', self.name, a[0]))
+            return None
+        if nm == 'seek':
+            st.log.append(('seek', self.name, a[0]))
+            return None
+        if nm in ('__enter__',):
+            return self
+        if nm in ('__exit__', 'close', 'flush'):
+            return None
+        raise Unsupported(f'file.{nm}')
+
+    def sym_view(self, I):
+        # reading the temporary file back: the lines written to it so far (the contract checks the seek(0) before)
+        st = self.owner._cur
+        st.log.append(('read-back', self.name, None))
+        return st.temp_lines
+
+
+@register
+class WriteGvf(Contract):
+    """write(variants, path, metadata): the output file holds the metadata lines, then the column header, then one line per record - its own
+    to_string() plus a line break - in the order given, nothing else; every record type is reported to the metadata before they are written"""
+    path, qualname, props = SIO, 'write', ('C13',)
+    assumptions = ('assumed: a temporary text file reads back, after seek(0), the lines written to it; GVFMetadata.to_strings yields comment lines',)
+
+    def setup(self, I):
+        e = I.e
+        st = types.SimpleNamespace(log=[])
+        st.n = e.int('n_records')
+        e.assume(st.n >= 0)
+        zz = lambda i: i if is_z3(i) else z3.IntVal(i)
+        st.records = FnView(st.n, lambda i: SymObj('Rec13w', i=zz(i), type=SymObj('RecType13w', i=zz(i))), tag='records')
+        st.temp_lines = FnView(st.n + 1, lambda j: SymObj('TempLine13w', j=zz(j)), tag='lines of the temporary file')
+        st.meta = SymObj('GVFMetadata13w')
+        st.nmeta = e.int('n_metadata_lines')
+        e.assume(st.nmeta >= 0)
+        st.args = [st.records, OpaqueStr(['out.gvf']), st.meta]
+        self._cur = st
+        return st
+
+    @property
+    def models(self):
+        c = self
+
+        def inst(reg):
+            sstr.install(reg)
+            reg.ext_('tempfile.TemporaryFile', lambda I, a, k: _OutFile13(c, 'temp'))
+            reg.ext_('open', lambda I, a, k: (c._cur.log.append(('open', a[0], a[1] if len(a) > 1 else k.get('mode'))), _OutFile13(c, 'out'))[1])
+            reg.method_('Rec13w', 'to_string', lambda I, o, a, k: SymObj('LineOf13w', i=o.fields['i']))
+            reg.method_('GVFMetadata13w', 'add_info', lambda I, o, a, k: c._cur.log.append(('add_info', None, a[0])))
+            reg.method_('GVFMetadata13w', 'to_strings', lambda I, o, a, k: (c._cur.log.append(('to_strings', None, None)),
+                                                                             FnView(c._cur.nmeta, lambda j: SymObj('MetaLine13w', j=j if is_z3(j) else z3.IntVal(j)), tag='metadata lines'))[1])
+
+        return (inst,)
+
+    def head(self, I, env, k):
+        self._cur.mark = len(self._cur.log)
+
+    @staticmethod
+    def line_of(v, cls):
+        """v is `<object of cls> + '\\n'`: return the object"""
+        if isinstance(v, OpaqueStr) and len(v.parts) == 2 and v.parts[1] == '\n' and isinstance(v.parts[0], SymObj) and v.parts[0].cls == cls:
+            return v.parts[0]
+        return None
+
+    # loop 0: the records -> temporary file
+    def step0(self, I, env, k):
+        st = self._cur
+        new = st.log[st.mark:]
+        w = [x for x in new if x[0] == 'write']
+        ai = [x for x in new if x[0] == 'add_info']
+        ln = self.line_of(w[0][2], 'LineOf13w') if len(w) == 1 and w[0][1] == 'temp' else None
+        oka = len(ai) == 1 and isinstance(ai[0][2], SymObj) and ai[0][2].cls == 'RecType13w'
+        return [('record-k-written-once-as-its-own-line-with-a-line-break', ln.fields['i'] == k if ln is not None else False),
+                ('type-of-record-k-reported-to-the-metadata', ai[0][2].fields['i'] == k if oka else False)]
+
+    # loop 1: metadata lines -> output
+    def step1(self, I, env, k):
+        st = self._cur
+        w = [x for x in st.log[st.mark:] if x[0] == 'write']
+        ln = self.line_of(w[0][2], 'MetaLine13w') if len(w) == 1 and w[0][1] == 'out' else None
+        return [('metadata-line-k-written-once-with-a-line-break', ln.fields['j'] == k if ln is not None else False)]
+
+    # loop 2: temporary file -> output
+    def step2(self, I, env, k):
+        st = self._cur
+        w = [x for x in st.log[st.mark:] if x[0] == 'write']
+        ok = len(w) == 1 and w[0][1] == 'out' and isinstance(w[0][2], SymObj) and w[0][2].cls == 'TempLine13w'
+        return [('line-k-of-the-temporary-file-copied-once-unchanged', w[0][2].fields['j'] == k if ok else False)]
+
+    @property
+    def loops(self):
+        mk = lambda step, n: LoopSpec(inv=lambda I, env, k: [], on_head=self.head, step=step, target_after='unknown',
+                                      on_break=lambda I, env, k: [('every-element-is-visited', False)],
+                                      on_exit=lambda I, env, m: [('all-elements-were-visited', m == n())])
+        return {0: mk(self.step0, lambda: self._cur.n), 1: mk(self.step1, lambda: self._cur.nmeta), 2: mk(self.step2, lambda: self._cur.n + 1)}
+
+    def post_return(self, I, st, ret):
+        e = I.e
+        ev = [x[0] + ':' + str(x[1]) for x in st.log if x[0] in ('open', 'to_strings', 'seek', 'read-back') or (x[0] == 'write' and isinstance(x[2], OpaqueStr))]
+        kinds = [x[0] for x in st.log]
+        e.prove('C13/write/column-header-first-in-the-temporary-file', any(x[0] == 'write' and x[1] == 'temp' and isinstance(x[2], (OpaqueStr, str)) for x in st.log[:1]))
+        idx = lambda kind: [i for i, x in enumerate(st.log) if x[0] == kind]
+        ok = len(idx('to_strings')) == 1 and len(idx('seek')) == 1 and len(idx('read-back')) == 1 and len(idx('open')) == 1
+        e.prove('C13/write/metadata-lines-asked-for-after-every-record-was-reported-then-the-temporary-file-rewound-and-copied',
+                ok and idx('open')[0] < idx('to_strings')[0] < idx('seek')[0] < idx('read-back')[0] and st.log[idx('seek')[0]][1] == 'temp' and st.log[idx('seek')[0]][2] == 0
+                and st.log[idx('open')[0]][2] in ('w', 'wt'))
+
+
+# ----------------------------------------------------------------------------
 # byte-offset index of a GVF file
 # ----------------------------------------------------------------------------
 from .c11 import LinesModel, BytesLine, TextLine, Key
